@@ -130,6 +130,51 @@ def check(ctx):
     if n_mut < 6:
         raise AnalysisError(f"only {n_mut} store mutations found in Env")
 
+    # ---- the same discipline for every other class in environ.py that memoises its string form
+    #      in `_detyped` (LsColors): state read by the memo-filling method must not be mutated
+    #      without dropping the memo on every path
+    for cq, cnode in [(q, n) for q, n in mod.quals.items() if isinstance(n, ast.ClassDef) and q != "Env"]:
+        cms = class_methods(cnode)
+        fillers = [f for f in cms.values() if any(isinstance(x, ast.Assign) and any(unparse(t) == "self._detyped" for t in x.targets) and not (isinstance(x.value, ast.Constant) and x.value.value is None) for x in walk_local(f))]
+        if not fillers:
+            continue
+        inputs = set()
+        for f in fillers:
+            for x in ast.walk(f):
+                if isinstance(x, ast.Attribute) and isinstance(x.value, ast.Name) and x.value.id == "self" and x.attr.startswith("_") and x.attr != "_detyped":
+                    inputs.add(f"self.{x.attr}")
+        for name, fn in cms.items():
+            if name == "__init__" or fn in fillers:
+                continue
+            muts = []
+            for x in walk_local(fn):
+                if isinstance(x, (ast.Assign, ast.AugAssign)):
+                    tg = x.targets if isinstance(x, ast.Assign) else [x.target]
+                    for t in tg:
+                        b = t.value if isinstance(t, ast.Subscript) else t
+                        if unparse(b) in inputs:
+                            muts.append(x)
+                elif isinstance(x, ast.Delete):
+                    for t in x.targets:
+                        b = t.value if isinstance(t, ast.Subscript) else t
+                        if unparse(b) in inputs:
+                            muts.append(x)
+                elif isinstance(x, ast.Expr) and isinstance(x.value, ast.Call) and isinstance(x.value.func, ast.Attribute) and unparse(x.value.func.value) in inputs and x.value.func.attr in ("add", "discard", "remove", "update", "clear", "pop", "popitem", "setdefault", "append", "extend", "insert"):
+                    muts.append(x)
+            if not muts:
+                continue
+            cfg = CFG(fn)
+            inv = [m for m in cfg.nodes if m.kind == "stmt" and isinstance(m.ast, ast.Assign) and any(unparse(t) == "self._detyped" for t in m.ast.targets) and const_value(m.ast.value, 0) is None]
+            for mu in muts:
+                n_mut += 1
+                nodes = cfg.nodes_of(mu)
+                ok = bool(inv) and bool(nodes)
+                if ok:
+                    after, path = cfg.must_pass(nodes, lambda m: m in inv, exits=("exit",))
+                    before = all(cfg.dominated(nd, lambda m: m in inv) for nd in nodes)
+                    ok = after or before
+                ctx.ob("R1", f"{EN}:{cq}.{name}", f"`{short(mu, 50)}` changes state the memoised string form is computed from; the memo is dropped on every path (before or after)", ok, key=f"{cq}.{name}|memo-not-dropped|{short(mu, 40)}", where=loc(mu))
+
     # ------------------------------------------------------------------ R2
     gi = meths.get("__getitem__")
     dt = meths.get("detype")
